@@ -179,12 +179,12 @@ def get_typehint_validator_base(
         elif sys.version_info >= (3, 11) and (
             origin is NotRequired or origin is Required
         ):
-            return get_typehint_validator(args[0])
+            return get_hint_next_depth(args[0])
 
         # not validating with annotations at this point
         elif sys.version_info >= (3, 9) and origin is Annotated:
             if len(args) == 1:
-                return get_typehint_validator(args[0])
+                return get_hint_next_depth(args[0])
             else:
                 # only return the first annotation validator
                 for x in args:
